@@ -191,13 +191,14 @@ func registryCheck(cr *checkRun, regName, label string, fulls []string, safetyOn
 		}
 		for _, o := range rep.Obls {
 			if o.Cover {
-				if !safetyOnly && (!o.Soft || strings.Contains(o.Name, "#cover@ret")) {
+				isRet := strings.Contains(o.Name, "#cover@ret")
+				if (!safetyOnly && (!o.Soft || isRet)) || (safetyOnly && isRet && (writing || cr.tier == "thorough")) {
 					all = append(all, o) // return-reachability covers are soft; they are solved so that a canary can be read against them
 				}
 				continue
 			}
 			if o.Kind == "canary" {
-				if !safetyOnly {
+				if !safetyOnly || writing || cr.tier == "thorough" {
 					all = append(all, o)
 				}
 				continue
